@@ -186,7 +186,7 @@ def universe(tier):
             add(vec(opt(r))); add(arr(opt(r), 3)); add(cflow(r, STRING)); add(opt(bound(r)))
     # generic derived items
     args = [prim("u8"), prim("u64"), UNIT, STRING, vec(prim("u8")), vec(prim("u32")), vec(STRING), vec(vec(prim("u16"))),
-            inst("P1"), inst("Z16"), inst("D1"), inst("E1"), opt(vec(prim("u64"))), boxs(inst("P1")), arr(prim("u32"), 3), tup(prim("u16"), 2)]
+            inst("P1"), inst("Z16"), inst("D1"), inst("E1"), opt(vec(prim("u64"))), boxs(inst("P1")), arr(prim("u32"), 3), tup(prim("u16"), 2), prim("bool")]
     gens = []
     for a in args:
         gens += [inst("G1", [a]), inst("W", [a]), inst("GT", [a]), inst("GB", [a]), inst("GN", [a])]
@@ -200,7 +200,11 @@ def universe(tier):
             gens += [inst("ZG", [a])]
         if not a.zero:
             gens += [inst("GI", [a]), inst("GEI", [a])]
-    small = [prim("u8"), STRING, vec(prim("u32")), inst("P1"), inst("Z16"), vec(STRING), rng("RangeInclusive", prim("u32")), rng("Range", prim("u64")), vec(prim("u128"))]
+    small = [prim("u8"), STRING, vec(prim("u32")), inst("P1"), inst("Z16"), vec(STRING), rng("RangeInclusive", prim("u32")), rng("Range", prim("u64")), vec(prim("u128")), prim("bool")]
+    # one-byte values read through the ε-copy path of a parameter-typed field, an odd number of
+    # them, followed by aligned data
+    gens += [inst("G2", [vec(opt(prim("bool"))), vec(prim("u16"))]), inst("G2", [opt(prim("bool")), vec(prim("u32"))]), inst("G2", [arr(prim("bool"), 3), vec(prim("u64"))]),
+             inst("G2", [opt(prim("u8")), inst("Z16")]), inst("G2", [prim("char"), vec(prim("u16"))]), inst("G2", [opt(prim("char")), vec(prim("u64"))])]
     for a in small:
         for b in small:
             gens += [inst("G2", [a, b]), inst("GE", [a, b])]
